@@ -270,6 +270,16 @@ def prove_nonneg(p, facts, depth=0):
                     continue
                 if prove_nonneg(p.subst(s, u), facts, depth + 1):
                     return True
+        if signs == {True} and s not in lb and isinstance(s, tuple) and s[0] == "?" and len(s) == 4:
+            # MAX(a, b) spelled as a conditional: at least both of its arms
+            c = s[1]
+            if isinstance(c, tuple) and c[0] == "b" and c[1] in (">", ">=", "<", "<="):
+                arms = {s[2], s[3]}
+                if arms == {c[2], c[3]}:
+                    is_max = (c[1] in (">", ">=") and s[2] == c[2]) or (c[1] in ("<", "<=") and s[2] == c[3])
+                    if is_max:
+                        lb = dict(lb)
+                        lb[s] = [q for q in (poly(s[2], 0, eq), poly(s[3], 0, eq)) if q is not None]
         if signs == {True} and s in lb:
             for l in lb[s]:
                 if s in l.symbols():
@@ -282,3 +292,28 @@ def prove_nonneg(p, facts, depth=0):
 
 def _without_eq(facts, s):
     return frozenset(a for a in facts if not (a[0] in ("cmp", "rel") and a[2] == "==" and a[1] == s))
+
+
+def subst_key(k, defs, depth=0):
+    """replace variables by their defining expressions (key level), so that
+    opaque sub-terms such as divisions become comparable"""
+    if not isinstance(k, tuple) or depth > 12:
+        return k
+    if k in defs:
+        return subst_key(defs[k], {a: b for a, b in defs.items() if a != k}, depth + 1)
+    return tuple(subst_key(x, defs, depth + 1) if isinstance(x, tuple) else x for x in k)
+
+
+def definitions(facts):
+    """{('v',x): key} from rel == facts whose left side is a plain variable"""
+    d = {}
+    for a in facts:
+        if a[0] == "rel" and a[2] == "==" and isinstance(a[1], tuple) and a[1][0] == "v":
+            d.setdefault(a[1], a[3])
+        elif a[0] == "cmp" and a[2] == "==" and isinstance(a[1], tuple) and a[1][0] == "v":
+            d.setdefault(a[1], ("i", a[3]))
+    return d
+
+
+def norm_poly(k, facts):
+    return poly(subst_key(k, definitions(facts)), 0, equalities(facts))
